@@ -15,7 +15,7 @@
    junk, one-byte reads, empty reads.  The former class hypotheses (no_cut_inside_marker, junk only in
    junk-only reads at frame boundaries, |junk| + |prefix| < |frame|) are gone. *)
 From Coq Require Import ZArith NArith List Bool.
-From AF Require Import Base.Sx Py.Str Fix.Codec Fix.WfMsg Lemmas.RoundTripL Lemmas.ReaderL.
+From AF Require Import Base.Sx Py.Str Fix.Codec Fix.WfMsg Fix.ReaderHooks Lemmas.RoundTripL Lemmas.ReaderL Lemmas.ReaderHooksL.
 From AFGen Require Import GenGroups.
 Import ListNotations.
 Open Scope N_scope.
@@ -94,3 +94,30 @@ Theorem C03_junk_prefix_cut_ok : forall k, In k [1; 2; 3; 4; 5]%nat ->
     [ex_garbage ++ firstn (87 - k) ex_FA; skipn (87 - k) ex_FA ++ ex_FB] = ([], ex_both, [0; 0]).
 Proof. exact junk_prefix_cut_ok. Qed.
 Print Assumptions C03_junk_prefix_cut_ok.
+
+(* --- a dispatcher that RAISES (Fix/ReaderHooks.v: `raises k` - the dispatch of the k-th message of this pass raises; the
+   reader task logs the exception and goes back to read()).  For ARBITRARY buffer contents, group tables and hook
+   behaviours: either nothing raised and the pass is the model's pass, or the pass ended (status 1) right after the failing
+   dispatch, and decoding what it left in the buffer completes exactly the deliveries of the pass whose dispatcher never
+   raises - same messages, same order, same final buffer and status: the failing frame is consumed (the buffer is advanced
+   BEFORE the dispatch) and nothing behind it is lost or handed over twice. *)
+Theorem C03_raising_dispatcher_loses_nothing : forall raises G bs f buf acc b1 o1 s1,
+  reader_loop_h raises G bs f buf acc = (b1, o1, s1) ->
+  reader_loop G bs f buf acc = (b1, o1, s1)
+  \/ exists f' b2 o2 s2, (f' <= f)%nat /\ s1 = 1 /\ reader_loop G bs f' b1 [] = (b2, o2, s2)
+                         /\ reader_loop G bs f buf acc = (b2, o1 ++ o2, s2).
+Proof. exact reader_loop_h_loses_nothing. Qed.
+Print Assumptions C03_raising_dispatcher_loses_nothing.
+
+Theorem C03_dispatcher_never_raises : forall raises G bs f buf acc,
+  (forall k, raises k = false) -> reader_loop_h raises G bs f buf acc = reader_loop G bs f buf acc.
+Proof. exact reader_loop_h_never. Qed.
+Print Assumptions C03_dispatcher_never_raises.
+
+(* both example frames in one read, the dispatch of the first one raises: frame A is consumed, the next pass delivers B *)
+Example C03_raising_dispatch_example :
+  let r1 := reader_loop_h (fun k => Nat.eqb k 0) GenGroups.table beginstring (S (length (ex_FA ++ ex_FB))) (ex_FA ++ ex_FB) [] in
+  r1 = (ex_FB, firstn 1 ex_both, 1)
+  /\ reader_loop GenGroups.table beginstring (S (length ex_FB)) (fst (fst r1)) [] = ([], skipn 1 ex_both, 0).
+Proof. exact raising_dispatch_example. Qed.
+Print Assumptions C03_raising_dispatch_example.
